@@ -200,7 +200,7 @@ def prepare_attributes(attrs, dyn_attributes, i18n_attributes,
             index = len(attributes)
             add = attributes.insert
             if name is not None:
-                normalized[name.lower()] = len(attributes) - 1
+                normalized[name.lower()] = index
 
         attribute = name, text, quote, space, eq, expr
         add(index, attribute)
